@@ -285,9 +285,16 @@ def run_ob(builder, ob, scratch, replay_dir, want_native=True):
     ub = [p for p in res["failures"] if (p["description"] or "").startswith("same object violation")]
     res["ub_notes"] = sorted(set("%s: %s" % (p["property"], p["description"]) for p in ub))
     res["failures"] = [p for p in res["failures"] if p not in ub]
+    # an environment model reached by something it does not model (e.g. a printf directive outside
+    # lib/env_printf.c): the run says nothing about the property -- inconclusive, never a VIOLATION
+    limits = [p for p in res["failures"] if "MODEL-LIMIT:" in (p["description"] or "")]
     unwinding = [p for p in res["failures"] if "unwinding assertion" in (p["description"] or "")]
-    real = [p for p in res["failures"] if p not in unwinding]
-    if unwinding and not real:
+    real = [p for p in res["failures"] if p not in unwinding and p not in limits]
+    if limits:
+        res["verdict"] = "INCONCLUSIVE"
+        res["error"] = "environment model limit reached: " + "; ".join(sorted(set(p["description"] for p in limits))[:3])
+        real = []
+    elif unwinding and not real:
         res["verdict"] = "INCONCLUSIVE"
         res["error"] = "unwinding assertion failed (bound too small): " + "; ".join(
             "%s %s" % (p["property"], p["description"]) for p in unwinding[:5])
